@@ -123,6 +123,9 @@ func bodyC06(c c06Case, x *vkit.Ctx) {
 		x.Label("slow-metrics-sink")
 	}
 
+	// two rounds in three run with lingering after lock releases (helpers_test.go: lockYield)
+	lockYield((len(c.Workers) + c.SlowSinkUs) % 3)
+	defer lockYield(0)
 	var stamp atomic.Int64
 	start := make(chan struct{})
 	var wg sync.WaitGroup
